@@ -211,6 +211,24 @@ API_SEEDS = [
     ("ring10", "[C:1][Br:2].[N:3]>>[C:1][N+:3].[Br-:2]", "I", "C1C2C3C4C5C6C7C8C9C%10C(Br)C%10C9C8C7C6C5C4C3C2C1.N", None),
     ("big", "[C:1][Br:2].[N:3]>>[C:1][N+:3].[Br-:2]", "I", "CCCCCCCCCCCCBr.CCCCCCCCCCCN(C)C", None),
 ]
+# rules whose applied left side keeps explicit X-H hydrogens: (name, reaction, substrate, invert)
+FIRSTS = [
+    ("hydrogenation-bwd", "[CH2:1]=[CH2:2].[H:3][H:4]>>[CH2:1]([H:3])[CH2:2][H:4]", "CC", True),
+    ("deprotonation-to-H+", "[CH3:1][C:2](=[O:3])[O:4][H:5]>>[CH3:1][C:2](=[O:3])[O-:4].[H+:5]", "CC(=O)O", False),
+    ("dehydrogenation", "[C:1]([H:3])[C:2][H:4]>>[C:1]=[C:2].[H:3][H:4]", "CCO", False),
+    ("protonation-bwd", "[CH3:3][N:1].[H+:2]>>[CH3:3][N+:1][H:2]", "C[NH3+]", True),
+]
+# (name, substrate, rule 1, mode 1, in-place edits [(element, hcount) of the atom -> new attributes], rule 2, mode 2):
+# rule 2 touches exactly the atoms whose charge / hydrogen count the caller edited between the two applications
+EDIT_SCENARIOS = [
+    ("amide-then-salt", "CC(=O)O.CN", "[C:1](=[O:2])[O:3][H:4].[N:5][H:6]>>[C:1](=[O:2])[N:5].[H:4][O:3][H:6]", "E",
+     [("O", 1, {"hcount": 0, "charge": -1}), ("N", 2, {"hcount": 3, "charge": 1})], "[O-:1].[N+:2][H:3]>>[O:1][H:3].[N:2]", "E"),
+    ("salt-implicit", "CC(=O)O.N", "[CH3:1][C:2](=[O:3])[OH:4].[NH3:5]>>[CH3:1][C:2](=[O:3])[O-:4].[NH4+:5]", "I",
+     [("O", 1, {"hcount": 0, "charge": -1}), ("N", 3, {"hcount": 4, "charge": 1})],
+     "[CH3:1][C:2](=[O:3])[O-:4].[NH4+:5]>>[CH3:1][C:2](=[O:3])[OH:4].[NH3:5]", "I"),
+    ("alkoxide-williamson", "CCO.CBr", "[C:1][Br:2].[OH:3]>>[C:1][OH+:3].[Br-:2]", "I",
+     [("O", 1, {"hcount": 0, "charge": -1})], "[C:1][O-:2].[C:3][Br:4]>>[C:1][O:2][C:3].[Br-:4]", "I"),
+]
 # >= 100 atoms (three-digit node ids, two matches far apart); only a few forms each, they are the expensive ones
 BIG100 = ("big100", "[C:1][Br:2].[N:3]>>[C:1][N+:3].[Br-:2]", "I", "BrC" + "C" * 60 + "CBr." + "C" * 45 + "N(C)C")
 
@@ -262,8 +280,10 @@ def _api_cases(rng, full):
 
     def base(name, r, mode, sub, inv=False, core=True, **kw):
         c = dict(kind="api", tpl=dict(rsmi=r, core=core), sub=sub, invert=inv, strategy=rng.choice(strategies), mode=mode)
+        if "strategy_fixed" in kw:
+            c["strategy"] = kw.pop("strategy_fixed")
         c.update(kw)
-        c["name"] = "api:%s:%s:%s" % (name, c.get("family", "?"), json.dumps({k: v for k, v in c.items() if k in ("sub", "sub_form", "tpl_form", "opts", "invert", "mode", "reads")}, sort_keys=True)[:160])
+        c["name"] = "api:%s:%s:%s" % (name, c.get("family", "?"), json.dumps({k: v for k, v in c.items() if k in ("sub", "sub_form", "tpl_form", "opts", "invert", "mode", "reads", "first")}, sort_keys=True)[:160])
         return c
     import json
     for name, r, mode, sub, bsub in API_SEEDS:
@@ -319,6 +339,31 @@ def _api_cases(rng, full):
                 base(name, r, mode, sub, family="step", tpl_ref="T")]))
             out.append(hist("fwd-then-bwd", [base(name, r, mode, sub, family="step", reads=2),
                                             base(name, r, mode, bsub, inv=True, family="step", reads=3)]))
+    # --- read ORDER: the first thing asked of a fresh reactor (lazily set state must not depend on what was read before).
+    # Rules whose applied left side KEEPS explicit X-H hydrogens (the explicit-hydrogen flag is set inside `mappings`).
+    for name, r, sub, inv in FIRSTS:
+        for first in (None, "its_list", "smarts_list", "smiles_list", "mapping_count", "mappings", "its", "smarts", "rule", "graph"):
+            out.append(base(name, r, "E", sub, inv=inv, family="first-" + str(first), first=first, strategy_fixed="all"))
+    for name, r, mode, sub, bsub in API_SEEDS[:4]:
+        for first in ("its_list", "smarts_list", "smiles_list", "mapping_count"):
+            out.append(base(name, r, mode, sub, family="first-" + first, first=first))
+    # --- the caller's substrate OBJECT used, edited in place (attributes of existing atoms), used again
+    for name, smi, r1, m1, edits, r2, m2 in EDIT_SCENARIOS:
+        for form in (None, "syngraph"):
+            g1 = _graph_form(smi, rng)
+            g2 = json.loads(json.dumps(g1))
+            ops = []
+            for el, hc, attrs in edits:
+                hit = [nd for nd in g2["graph"]["nodes"] if nd[1]["element"] == el and nd[1]["hcount"] == hc]
+                nd = hit[0]
+                nd[1].update(attrs)
+                ops.append([nd[0], attrs])
+            steps = [base(name, r1, m1, g1, family="step", sub_ref="G", sub_form=form, core=True),
+                     base(name, r2, m2, g2, family="step", sub_ref="G", sub_form=form, edit_attrs=ops, core=True),
+                     base(name, r1, m1, g1, family="step", sub_ref="G", sub_form=form, core=True,
+                          edit_attrs=[[n_, {k: next(x for x in g1["graph"]["nodes"] if x[0] == n_)[1][k] for k in a_}] for n_, a_ in ops])]
+            out.append(dict(kind="history", family="attributes-edited-in-place" + ("-syngraph" if form else ""),
+                            name="history:%s:attributes-edited-in-place:%s:%s" % (name, form, smi), steps=steps))
     # --- >= 100 atoms
     name, r, mode, sub = BIG100
     out.append(base(name, r, mode, sub, family="size-100"))
@@ -373,6 +418,11 @@ def _history_run(case, fn):
         if ref is not None:
             if ref not in shared:
                 shared[ref] = K.sub_obj(st["sub"], st.get("sub_form"))
+            elif st.get("edit_attrs"):
+                # the caller edits ATTRIBUTES of the same graph object in place (node dicts survive, as after G.nodes[n]["charge"] = -1)
+                raw = shared[ref]._raw if hasattr(shared[ref], "_raw") else shared[ref]
+                for n, attrs in st["edit_attrs"]:
+                    raw.nodes[n].update(attrs)
             elif st.get("edit_to_sub"):
                 # the caller edits the SAME graph object in place between two calls
                 new = K.sub_obj(st["sub"], None)
@@ -516,6 +566,7 @@ def _impl_one(case):
     obs.append(calls)
     obs.append(0 if rec.its_err is None else 1)
     obs.append(1)                            # wf_rcb rule.rc && wf_hostb host (recomputed by the model)
+    obs.append(1)                            # the explicit-hydrogen route is taken exactly when the pattern keeps X-H (model: flag vs re-matches)
     if case.get("reads"):
         return [obs, 1 if rec.reads_ok else 0]   # repeated reads of the cached attributes all gave the first value
     return obs
@@ -600,6 +651,8 @@ def _oracle_one(case):
         fails.append(dict(clause="explicit-h-crash", detail="SynReactor._explicit_h raised %s" % rec.its_err))
     for cl, msg in K.input_failures(case, rec.host):
         fails.append(dict(clause="its-" + cl, detail=msg))
+    if not rec.inputs_ok:
+        fails.append(dict(clause="input-modified", detail="the reactor modified the caller's %s (attributes differ after the call): a later use of the same object starts from stale labels" % getattr(rec, "inputs_what", "input")))
     if not rec.reads_ok:
         fails.append(dict(clause="unstable-reads", detail="mappings / its_list / smarts_list / smiles_list change between repeated reads of the same reactor"))
     seen = set()
